@@ -455,6 +455,40 @@ def main() -> None:
         random_parse(out, rng, 1500 if thorough else 150)
         random_nodes(out, rng, 1500 if thorough else 150)
         random_fixups(out, rng, 3000 if thorough else 300)
+    elif mode == 'replay':
+        # re-execute the history stored in a replay file against the current tree
+        rp = json.load(open(sys.argv[2]))
+        rec = rp['record']
+        out = hlib.RecWriter(sys.argv[3])
+        if rec['k'] == 'life':
+            w = World(rec['kind'], sorted(rec['pre']['man']), sorted(rec['pre']['objs']))
+            for a in rec['hist']:
+                a = dict(a)
+                pre = w.project()
+                res = w.apply(a)
+                out.write({'k': 'life', 'kind': rec['kind'], 'pre': pre, 'a': a, 'res': res, 'post': w.project(),
+                           'sig': rec.get('sig', rp.get('sig', {'kind': rec['kind'], 'action': a['op'], 'src': 'replay'}))})
+        elif rec['k'] == 'idman':
+            man = IDMan()
+            for op, d in rec['hist']:
+                pre = {'used': sorted(man._used), 'pos': man.search_pos}
+                res = 0
+                if op == 'get':
+                    res = man.get_id(d)
+                elif op == 'discard':
+                    man.discard(d)
+                else:
+                    try:
+                        man.remove(d)
+                    except KeyError:
+                        pass
+                out.write({'k': 'idman', 'pre': pre, 'a': {'op': 'get' if op == 'get' else 'discard', 'd': d},
+                           'res': res, 'post': {'used': sorted(man._used), 'pos': man.search_pos},
+                           'sig': {'kind': 'idman', 'action': op, 'src': 'replay'}})
+        else:
+            rec = dict(rec)
+            rec.setdefault('sig', {'kind': rp.get('kind'), 'action': rp.get('action'), 'src': 'stored'})
+            out.write(rec)   # documents/fixup tables: the stored record is re-validated as is
     else:
         raise SystemExit(2)
     out.close()
